@@ -13,6 +13,7 @@ CONSTANTS
   WithErrors = FALSE
   WithIdle = FALSE
   WithSleep = TRUE
+  WithStop = FALSE
   TimeoutTypes = {"T"}
   KeepLog = FALSE
 INVARIANT TypeOK
